@@ -65,3 +65,7 @@ add("C13", "exploration", "bounded exhaustive enumeration over a BF2 generator: 
     "Every image size 1..300 x 3 line sizes plus page crossings, a gap/overlap at every line index of images of up to 8 lines, every tag type 0x30..0xA8, instruction variants, all section orders of length 3, EVERY event sequence of length <= 5 (thorough 6) over 9 event kinds, memory images with gaps at every subset of <= 3 positions, and every platform filter of <= 3 entries: payloads are compared with the generating image, tags/order/comments/accept-reject with a reference importer, filter text by truth table.",
     "The BF2 grammar and the section rules are reverse-engineered from the importer (no sample exists); overlapping data lines are not judged.",
     "E1+E2", "DESIGN.md 4/C13")
+add("C14", "fault_enumeration", "exhaustive fault enumeration per parsing entry point: every position x mutation class, every line operation, every prefix, all short strings, reference-built near-valid files",
+    "For each entry point (BF3 reader, BEC2 reader x 5 decryptor sets, BF2 importer, identifier parser, filter formatter) every text position x {delete, duplicate, 10 replacement characters}, every binary position x 11 classes, every line deleted/duplicated/swapped, every prefix, all strings of length <= 5 over 8 symbols, every auth-block kind with every value length, and every structured edit pair of C05 are parsed; the result must be a return or a FormatError/ValueError subclass, within a 30 s watchdog, with library-global state unchanged after every chunk.",
+    "Allowed types are FormatError and ValueError subclasses; artefacts are a fixed set of shapes.",
+    "E3+E1", "DESIGN.md 4/C14")
